@@ -74,6 +74,7 @@ def _case(draw, kind):
                 inplace=draw(st.booleans()),          # the same dict object, edited in place between the calls (system.constants['k'] = ...)
                 stiff=(draw(st.sampled_from([1.0, 1.0, 1.0, 10.0, 40.0])) if not linear else draw(st.sampled_from([1.0, 10.0, 40.0, 100.0, 400.0]))) if kind == "implicit" else 1.0,
                 linear=linear,
+                layout=draw(st.sampled_from(["C", "C", "F"])),
                 prelude_fault=draw(st.sampled_from([None, None, None, 2, 5, 9, 14, 20, 33])),
                 jump_mode=draw(st.sampled_from(["full", "full", "state_one_component", "state_one_component", "state_all_components", "time_only"])),
                 jump_index=draw(st.integers(0, 5)),
@@ -146,6 +147,8 @@ def check(case):
     attrs = dict(method=name, dtype=dtname)
 
     y = np.asarray(case["y"], dtype=dt).reshape(shape)
+    if case.get("layout") == "F" and y.ndim >= 2:
+        y = np.asfortranarray(y)          # same values and shape, non-C memory order
     t = dt(case["t"])
     h = dt(case["h"])
     tol = case["tol"]
